@@ -670,7 +670,14 @@ def r05_6(ctx, prog, crate):
                   "R05.6", ["total_duration", "all-time-samples"], "total_duration does not run over all of self.time_samples", td.where(0))
 
 
+def r05_7(ctx, prog, crate):
+    """The divisor of every mean: the total iteration count is formed in 64 bits (shared with R03.5)."""
+    from .C03 import iter_count_rule
+    iter_count_rule(ctx, "R05.7", prog, crate)
+
+
 def run(ctx, prog, crate):
+    r05_7(ctx, prog, crate)
     r05_6(ctx, prog, crate)
     r05_5(ctx, prog, crate)
     r05_1(ctx, prog, crate)
